@@ -587,6 +587,22 @@ fn gen_itp_params(rng: &mut Rng) -> (f64, f64, f64) {
 fn random_case(rng: &mut Rng, rep: &mut Report) {
     let mut p = gen_problem(rng);
     let tol = rng.log10(-12.0, -2.0);
+    // one monotone problem in sixteen: a valid bracket that is already narrower than the tolerance (any of its
+    // points is a correct answer; "nothing to do" is not an error)
+    if matches!(p.f.kind, Kind::Lin | Kind::Cubic | Kind::Tanh | Kind::CubicPlus | Kind::Quintic) && !p.end_root && (p.a.to_bits() >> 9) % 16 == 0 {
+        let w = tol * 10f64.powf(-3.0 + 2.95 * (((p.a.to_bits() >> 13) % 1024) as f64 / 1024.0));
+        let (na, nb) = (p.f.r - 0.3 * w, p.f.r + 0.7 * w);
+        if w >= 64.0 * EPS * (p.f.r.abs() + 1.0) && p.f.eval(na) * p.f.eval(nb) < 0.0 {
+            if p.a < p.b {
+                p.a = na;
+                p.b = nb;
+            } else {
+                p.a = nb;
+                p.b = na;
+            }
+            rep.count("problems/bracket_narrower_than_the_tolerance", 1);
+        }
+    }
     if p.f.kind == Kind::Exp && p.f.c >= 10.0 {
         let (va, vb) = (p.f.eval(p.a).abs(), p.f.eval(p.b).abs());
         if va.is_infinite() || vb.is_infinite() {
@@ -988,6 +1004,7 @@ pub fn thresholds(ctx: &Ctx, rep: &Report) -> Vec<Threshold> {
     let q = |a: f64, b: f64| ctx.tier.pick(a, b);
     let mut t = vec![];
     t.push(Threshold { what: "brackets over several roots of a sine with one end value already below the tolerance".into(), required: ctx.tier.pick(500.0, 5_000.0), observed: rep.counter("problems/several_roots_and_an_end_value_below_tol") as f64 });
+    t.push(Threshold { what: "valid brackets already narrower than the tolerance".into(), required: ctx.tier.pick(500.0, 5_000.0), observed: rep.counter("problems/bracket_narrower_than_the_tolerance") as f64 });
     t.push(Threshold { what: "brackets with a finite end value above 1e290".into(), required: ctx.tier.pick(15_000.0, 150_000.0), observed: rep.counter("problems/huge_finite_end_value") as f64 });
     t.push(Threshold { what: "steep exponentials whose finite end values differ by more than 1e17".into(), required: ctx.tier.pick(1_000.0, 10_000.0), observed: rep.counter("problems/steep_exponential_with_end_values_1e17_apart") as f64 });
     t.push(Threshold { what: "steep exponentials with an end value that overflows to infinity".into(), required: ctx.tier.pick(100.0, 1_000.0), observed: rep.counter("problems/steep_exponential_with_an_infinite_end_value") as f64 });
